@@ -93,35 +93,124 @@ JUNK = ["?", "Q", "ZZ", "0", "1", "-", "N/A", "NONE", "high", "Not Defined", "XX
 _order_cache = {}
 
 
-def question_order(vtag, all_metrics):
-    """Question order as WITNESSED by the return value of a probing run (the property
-    does not fix the order): every question is answered by cycling through all values
-    of the version until one is accepted.  Returns (order list, probe result)."""
-    key = (vtag, bool(all_metrics))
-    if key in _order_cache:
-        return _order_cache[key]
-    ver = VER_OF[vtag]
+def _all_values(ver):
     vals = []
     for m in T.ORDER[ver]:
         for v in T.VALUES[ver][m]:
             if v not in vals:
                 vals.append(v)
-    n = len(T.ORDER[ver])
-    answers = vals * (n + 1)
-    r = run_dialogue(vtag, all_metrics, answers, limit=len(answers) + 5)
-    order = None
-    if r["ret"] is not None and isinstance(r["ret"], str):
-        p = PREFIX_OF[vtag]
-        body = r["ret"][len(p):] if r["ret"].startswith(p) else r["ret"]
-        try:
-            order = [f.split(":")[0] for f in body.split("/")]
-        except Exception:
+    return vals
+
+
+def _fields_of(vtag, ret):
+    """{metric: value} of a returned string, or None if it has no such shape."""
+    if not isinstance(ret, str):
+        return None
+    p = PREFIX_OF[vtag]
+    if p and not ret.startswith(p):
+        return None
+    out = {}
+    for f in ret[len(p):].split("/"):
+        parts = f.split(":")
+        if len(parts) != 2 or parts[0] in out:
+            return None
+        out[parts[0]] = parts[1]
+    return out
+
+
+def _validates(vtag, all_metrics, order, n=12):
+    """Does the sequential model with this question order reproduce n plain dialogues?"""
+    import random
+    from ..spec import dialogue as M
+    ver = VER_OF[vtag]
+    rng = random.Random("order-validation-%s-%s" % (vtag, all_metrics))
+    for _ in range(n):
+        answers = []
+        for q in order:
+            if rng.random() < 0.3:
+                answers.append("?")
+            answers.append(rng.choice(T.VALUES[ver][q]))
+        r = run_dialogue(vtag, all_metrics, answers)
+        got = _fields_of(vtag, r["ret"]) if r["ret"] is not None else None
+        outs = [o for o in M.simulate(ver, order, answers) if o[0] is not None]
+        if got is None or not any(dict(o[0]) == got for o in outs):
+            return False
+    return True
+
+
+def question_order(vtag, all_metrics):
+    """The order in which the builder asks its questions, established EXPERIMENTALLY and
+    without reading the prompts (the property fixes neither the question order nor the
+    field order of the returned vector, so neither may be assumed):
+
+    with the answers to questions 1..i-1 fixed, question i is given each value t of the
+    version in turn, followed by a universal completion tail.  Two values that are both
+    legal for question i leave the tail aligned identically, so the two returned vectors
+    differ in exactly ONE field -- the metric of question i.  (An illegal t is rejected, the
+    tail shifts, and all illegal values give one and the same result.)
+
+    Returns (order list or None, result of a plain probing run)."""
+    key = (vtag, bool(all_metrics))
+    if key in _order_cache:
+        return _order_cache[key]
+    ver = VER_OF[vtag]
+    vals = _all_values(ver)
+    expected = metric_set(vtag, all_metrics)
+    tail = vals * (len(T.ORDER[ver]) + 2)
+    probe = run_dialogue(vtag, all_metrics, list(tail), limit=len(tail) + 5)
+    known = []  # [(metric, a legal answer)]
+    order = []
+    for i in range(len(expected)):
+        found = None
+        # several rotations of the completion tail: with an unlucky alignment a legal answer and
+        # a rejected one can give the same result; another rotation separates them
+        for rot in range(len(vals)):
+            rtail = (vals[rot:] + vals[:rot]) * (len(T.ORDER[ver]) + 2)
+            res = {}
+            for t in vals:
+                answers = [a for _m, a in known] + [t] + rtail
+                r = run_dialogue(vtag, all_metrics, answers, limit=len(answers) + 5)
+                res[t] = _fields_of(vtag, r["ret"]) if r["ret"] is not None else None
+            # result when question i REJECTS its first answer (illegal for every metric): a value
+            # t that yields this same result was rejected too and says nothing about question i
+            answers = [a for _m, a in known] + ["?"] + rtail
+            r = run_dialogue(vtag, all_metrics, answers, limit=len(answers) + 5)
+            rj = _fields_of(vtag, r["ret"]) if r["ret"] is not None else None
+            for a in range(len(vals)):
+                ra = res[vals[a]]
+                if ra is None or set(ra) != expected or ra == rj:
+                    continue
+                for b in range(a + 1, len(vals)):
+                    rb = res[vals[b]]
+                    if rb is None or set(rb) != expected or rb == rj:
+                        continue
+                    diff = [m for m in ra if ra[m] != rb[m]]
+                    if len(diff) == 1 and diff[0] not in order:
+                        m = diff[0]
+                        if ra[m].upper() == vals[a].upper() and rb[m].upper() == vals[b].upper():
+                            found = (m, vals[a])
+                            break
+                if found:
+                    break
+            if found:
+                break
+        if not found:
             order = None
-        # usable as a witness only if it names each expected metric exactly once
-        if order is not None and (len(order) != len(set(order)) or set(order) != metric_set(vtag, all_metrics)):
-            order = None
-    _order_cache[key] = (order, r)
-    return order, r
+            break
+        order.append(found[0])
+        known.append(found)
+    if order is not None and (len(order) != len(set(order)) or set(order) != expected):
+        order = None
+    # the weaker witness: the field order of the returned vector
+    f = _fields_of(vtag, probe["ret"]) if probe["ret"] is not None else None
+    weak = list(f) if f is not None and set(f) == expected else None
+    if order is None:
+        order = weak
+    elif weak is not None and weak != order and not _validates(vtag, all_metrics, order) and _validates(vtag, all_metrics, weak):
+        order = weak  # the experimentally found order does not explain plain dialogues, the weak witness does
+    del RECENT[:]  # the probing sessions are not part of any later witness's 'recent' history
+    _order_cache[key] = (order, probe)
+    return order, probe
 
 
 def script_for(order, target, rng=None, noise=0.0, case="asis"):
